@@ -246,7 +246,19 @@ def find(t, pred) -> list:
     return [x for x in subterms(t) if pred(x)]
 
 
+def _instance_dict_of(t):
+    """obj when t is obj.__dict__ or vars(obj)."""
+    if t[0] == "attr" and t[2] == "__dict__":
+        return t[1]
+    if t[0] == "call" and t[1] == ("global", "vars") and len(t[2]) == 1 and not t[3]:
+        return t[2][0]
+    return None
+
+
 def mk_sub(base, idx):
+    d = _instance_dict_of(base)
+    if d is not None and idx[0] == "const" and isinstance(idx[1], str):
+        return ("attr", d, idx[1])          # obj.__dict__['name'] is obj.name
     """Subscript with the obvious folding: <tuple / list literal>[<constant index>] is that element (also through a
     conditional whose branches are both literals)."""
     if idx[0] == "const" and isinstance(idx[1], int) and not isinstance(idx[1], bool):
@@ -730,7 +742,21 @@ class TermEval:
                 if p not in amap:
                     amap[p] = ("call", ("global", "<from-spread-mapping>"), tuple(spread) + (("const", p),), ())
             if a.kwarg is not None:
-                amap["**" + a.kwarg.arg] = spread[0] if len(spread) == 1 else ("tuple", tuple(spread))
+                named = {x.arg for x in a.posonlyargs + a.args + a.kwonlyargs}
+                extras = [(("const", k), v) for k, v in call_term[3] if k is not None and k not in named]
+                if extras:
+                    # f(x=1, **m) where f does not name x: its **mapping parameter is {**m, 'x': 1} (in call order)
+                    items = []
+                    for k, v in call_term[3]:
+                        if k is None:
+                            items.append((v if v[0] == "dstar" else ("dstar", v), NONE))
+                        elif k not in named:
+                            items.append((("const", k), v))
+                    merged = ("dict", tuple(items))
+                    amap["**" + a.kwarg.arg] = ("dstar", merged)
+                    amap[a.kwarg.arg] = merged
+                else:
+                    amap["**" + a.kwarg.arg] = spread[0] if len(spread) == 1 else ("tuple", tuple(spread))
         # defaults
         defaults = list(a.defaults)
         allpos = [x.arg for x in a.posonlyargs + a.args]
@@ -824,6 +850,10 @@ class _FuncEval:
 
     def s_Assert(self, s, p):
         c = self.ev(s.test, p)
+        # a refusal under `not c` (AssertionError), after which c holds
+        q = p.fork()
+        q.pc = p.pc + literals(c, False) if len(literals(c)) == 1 else p.pc + (neg(c),)
+        self.effect("raise", None, None, ("call", ("global", "AssertionError"), (), ()), q, s)
         p.pc = p.pc + literals(c)
 
     def s_Expr(self, s, p):
@@ -875,7 +905,11 @@ class _FuncEval:
         elif isinstance(t, ast.Subscript):
             base = self.ev(t.value, p)
             idx = self.ev_slice(t.slice, p)
-            self.effect("store_sub", base, idx, v, p, node, aug)
+            d = _instance_dict_of(base)
+            if d is not None and idx[0] == "const" and isinstance(idx[1], str):
+                self.effect("store_attr", d, idx[1], v, p, node, aug)     # obj.__dict__['name'] = v  is  obj.name = v
+            else:
+                self.effect("store_sub", base, idx, v, p, node, aug)
             # a subscript store into a local container: the local now holds "container updated with"
         elif isinstance(t, ast.Starred):
             self.assign(t.value, v, p, node)
@@ -1428,12 +1462,19 @@ class _FuncEval:
             nt = _nt_construction(self, e, args, kwargs)
             if nt is not None:
                 return nt
+        if fn == ("global", "dict") and not args and kwargs:
+            # dict(a=x, **m) is {'a': x, **m}
+            return ("dict", tuple((v, NONE) if k is None else (("const", k), v) for k, v in kwargs))
         if len(args) == 2 and not kwargs and fn[0] == "global" and fn[1].split(".")[-1] == "cast":
             try:
                 if self.ix._is_typing_cast(e, self.scope):
                     return args[1]   # typing.cast(T, x) is x
             except Exception:  # noqa: BLE001
                 pass
+        if fn[0] == "attr" and fn[2] == "get" and _instance_dict_of(fn[1]) is not None and 1 <= len(args) <= 2 and \
+                not kwargs and args[0][0] == "const" and isinstance(args[0][1], str) and \
+                (len(args) == 1 or args[1] == NONE):
+            return ("attr", _instance_dict_of(fn[1]), args[0][1])   # obj.__dict__.get('name') - as getattr(obj, 'name', None)
         if fn == ("global", "getattr") and len(args) == 2 and not kwargs and args[1][0] == "const" \
                 and isinstance(args[1][1], str):
             return ("attr", args[0], args[1][1])  # getattr(x, 'name') is x.name
